@@ -979,6 +979,32 @@ Fixpoint add_arg_spec (l : list spec) (a : spec) : list spec :=
               s_regs := s_regs a; s_name := s_name a |} :: r
       else o :: add_arg_spec r a
   end.
+(* the same with the exact-match mark of each list element: a spec that came from a regex pattern does not replace one
+   that came from the function's exact name ("do not overwrite exact match by regex match") *)
+Fixpoint add_arg_spec_x (l : list (spec * bool)) (a : spec) (exact : bool) : list (spec * bool) :=
+  match l with
+  | [] => [(a, exact)]
+  | (o, oex) :: r =>
+      if same_key a o
+      then (if exact || negb oex
+            then ({| s_idx := s_idx o; s_fmt := s_fmt a; s_size := s_size a; s_type := s_type a; s_u := s_u a;
+                     s_regs := s_regs a; s_name := s_name a |}, exact)
+            else (o, oex)) :: r
+      else (o, oex) :: add_arg_spec_x r a exact
+  end.
+(* all options that match one function, in the order given: (exact name?, specs) *)
+Definition merge_opts (opts : list (bool * list spec)) : list spec :=
+  map fst (fold_left (fun l o => fold_left (fun l' a => add_arg_spec_x l' a (fst o)) (snd o) l) opts []).
+Definition zlist_eqb (a b : list Z) : bool :=
+  (length a =? length b)%nat && forallb (fun p => (fst p =? snd p)%Z) (combine a b).
+Definition type_eqb (a b : atype) : bool :=
+  match a, b with TIndex, TIndex | TFloat, TFloat | TReg, TReg | TStack, TStack => true | _, _ => false end.
+Definition spec_eqb (a b : spec) : bool :=
+  (s_idx a =? s_idx b) && fmt_eqb (s_fmt a) (s_fmt b) && (s_size a =? s_size b) && type_eqb (s_type a) (s_type b) &&
+  (match s_type a with TReg | TStack => (s_u a =? s_u b)%Z | _ => true end) &&
+  (match s_fmt a with FStruct => zlist_eqb (s_regs a) (s_regs b) | _ => true end) && list_eqb (s_name a) (s_name b).
+Fixpoint specs_eqb (a b : list spec) : bool :=
+  match a, b with [] , [] => true | x :: a', y :: b' => spec_eqb x y && specs_eqb a' b' | _, _ => false end.
 Record entry := { e_args : bool; e_ret : bool; e_specs : list spec }.     (* TRIGGER_FL_ARGUMENT / _RETVAL, the list *)
 Definition entry0 : entry := {| e_args := false; e_ret := false; e_specs := [] |}.
 (* one option (the specs of one direction for this function); auto: it comes from --auto-args *)
